@@ -269,7 +269,7 @@ func runC09(c *Ctx) {
 		w.Count("assembly_histories", 1)
 	})
 	// Random long histories.
-	nRand := c.pick(150000, 6000000)
+	nRand := c.pick(400000, 6000000)
 	c.ParallelFor(nRand, func(w *Worker, i int64) {
 		r := newRng(c.Seed, 0xc09, uint64(i))
 		pInv := 0
